@@ -69,7 +69,7 @@ def run_case(ctx, k, rng):
     desc = {"ctor": {**geom, "kernel": kdesc, "weight": {a: (b if not callable(b) else b.__name__) for a, b in wkw.items()}}}
     try:
         if scen in (0, 1, 2):       # union additivity + order
-            A, B = pts(int(rng.integers(1, 16))), pts(int(rng.integers(1, 16)))
+            A, B = pts(int(rng.integers(1, 16))), pts(int(rng.integers(1, 16)) if rng.random() < 0.95 else int(rng.choice([120, 127, 128, 250])))
             ctx.set_payload({**desc, "A": A, "B": B})
             ia, ib = np.asarray(T(A)), np.asarray(T(B))
             U = np.vstack([A, B])
@@ -81,7 +81,7 @@ def run_case(ctx, k, rng):
             ctx.check("point order irrelevant", np.max(np.abs(ip - ia)) <= 1e-12 * Wa, worst=float(np.max(np.abs(ip - ia))))
             ctx.mark_nontrivial(desc, A, B)
         elif scen in (3, 4):        # sign and total
-            A = pts(int(rng.integers(1, 31)))
+            A = pts(int(rng.integers(1, 31)) if rng.random() < 0.95 else int(rng.choice([127, 128, 129, 256, 257])))
             ctx.set_payload({**desc, "A": A})
             ia = np.asarray(T(A))
             w = np.asarray(wfun(A[:, 0], A[:, 1] - A[:, 0]), float)
